@@ -14,6 +14,7 @@
 //!      (ii) every crate with an injected ownership violation has an error diagnostic;
 //!      and no panic while computing diagnostics.
 mod pgen;
+mod place;
 mod simpl;
 mod spec;
 mod trans;
@@ -154,6 +155,19 @@ fn corpus_units() -> Vec<Unit> {
         let text = std::fs::read_to_string(f).ok()?;
         Some(Unit { name: format!("rg_{}", f.file_stem().unwrap().to_string_lossy()), origin: f.display().to_string(), text, inject: None, gen_base: false })
     }).collect()
+}
+
+/// every violation shape in every kind of function body (place.rs)
+fn placement_units(rng: &mut Rng, rounds: usize, stats: &mut BTreeMap<String, usize>) -> Vec<Unit> {
+    let mut res = vec![];
+    for _ in 0..rounds {
+        for u in place::round(rng.next()) {
+            let base = u.inject.is_none();
+            *stats.entry(format!("placement_{}", if base { "control" } else { "violation" })).or_insert(0) += 1;
+            res.push(Unit { name: format!("p{:04}{}", res.len(), if base { "c" } else { "v" }), origin: format!("placement: {}", u.desc), text: u.text, inject: u.inject, gen_base: base });
+        }
+    }
+    res
 }
 
 /// the family over hand-written Copy / Drop / Destruct / PanicDestruct impls (simpl.rs)
@@ -374,6 +388,7 @@ fn main() {
     units.extend(corpus);
     units.extend(generated_units(&mut rng, if thorough { 2000 } else { 150 }, &mut shapes));
     units.extend(special_impl_units(&mut rng, if thorough { 1500 } else { 160 }, &mut shapes));
+    units.extend(placement_units(&mut rng, if thorough { 8 } else { 1 }, &mut shapes));
     let progs = out.join("progs");
     let _ = std::fs::remove_dir_all(&progs);
     for u in &units {
@@ -463,6 +478,18 @@ fn main() {
             failures.push(json!({"kind": kind, "why": p, "config": CONFIGS[0].name,
                 "unit": units[*i].name, "origin": units[*i].origin, "program": units[*i].text}));
         }
+    }
+
+    // ---------- every borrow-check error of a function reaches the crate's diagnostics ----------
+    // (the functions are enumerated by the translator independently of the diagnostics reporter)
+    let mut lost_units = BTreeSet::new();
+    for (i, c) in &results[0].cases {
+        let Ok(c) = c else { continue };
+        let d = &results[0].diags[*i];
+        if (c.expected.is_empty() && c.fn_not_dropped.is_empty()) || d.has_errors || d.panic.is_some() || !lost_units.insert(*i) { continue; }
+        failures.push(json!({"kind": "ownership_violation_accepted",
+            "why": format!("function {} has borrow-check diagnostics {:?} (db.borrow_check / function_with_body_lowering_diagnostics) but the crate's diagnostics report no error", c.name, c.expected),
+            "config": CONFIGS[0].name, "unit": units[*i].name, "origin": units[*i].origin, "program": units[*i].text}));
     }
 
     // ---------- path oracle (spec.rs) on every crate without error diagnostics ----------
